@@ -11,6 +11,8 @@ SPEC = {
         {"name": "concurrent", "pkg": RF, "kind": "rapid", "run": "^TestVerifC11Concurrent$",
          "quick": {"checks": 400, "shards": 2, "timeout": 300, "race": True},
          "thorough": {"checks": 4000, "shards": 8, "timeout": 1500, "race": True}},
+        {"name": "concurrent-now", "pkg": RF, "kind": "plain", "run": "^TestVerifC11ConcurrentNow$",
+         "quick": {"shards": 4, "timeout": 300}, "thorough": {"shards": 16, "timeout": 1500}},
     ],
 }
 
@@ -20,8 +22,8 @@ TEXT = {
     "level_text": ("Exploration. All histories of up to 5 (quick) / 6 (thorough) operations over a small alphabet with signed time "
                    "steps are enumerated completely against a declarative set semantics and an operational model; longer random "
                    "histories including real capacity overflow (102400+k inserts) and backward clock jumps are driven by a rapid "
-                   "state machine with structural invariants after every step; concurrent submissions are checked for "
-                   "exactly-one-winner under the race detector. Absence of violations beyond the explored bound is not established."),
+                   "state machine with structural invariants after every step; concurrent submissions (explicit timestamps under the race detector; the clock-reading entry point on fresh filters) are checked for "
+                   "exactly-one-winner. Absence of violations beyond the explored bound is not established."),
     "level_note": ("Trusted: Go runtime, the harness's own reference model. After a partial backward clock jump (earlier than some "
                    "but not the oldest entry) only invariants are compared until the model has emptied, because the property makes "
                    "no exact claim there. Interleavings of concurrent callers are sampled by the Go scheduler, not enumerated."),
